@@ -86,6 +86,75 @@ impl<T> InlineVec<T> {
     pub fn iter(&self) -> impl DoubleEndedIterator<Item = &T> + ExactSizeIterator {
         self[0..].iter()
     }
+    // further `Vec` / slice operations a changed implementation might reasonably use
+    pub fn first(&self) -> Option<&T> {
+        if self.len == 0 { None } else { self.items[0].as_deref() }
+    }
+    pub fn first_mut(&mut self) -> Option<&mut T> {
+        if self.len == 0 { None } else { self.items[0].as_deref_mut() }
+    }
+    pub fn get(&self, i: usize) -> Option<&T> {
+        if i < self.len { self.items[i].as_deref() } else { None }
+    }
+    pub fn get_mut(&mut self, i: usize) -> Option<&mut T> {
+        if i < self.len { self.items[i].as_deref_mut() } else { None }
+    }
+    pub fn iter_mut(&mut self) -> impl DoubleEndedIterator<Item = &mut T> + ExactSizeIterator {
+        let n = self.len;
+        self.items[..n].iter_mut().map(|o| match o {
+            Some(v) => &mut **v,
+            None => unreachable!(),
+        })
+    }
+    pub fn clear(&mut self) {
+        while self.pop().is_some() {}
+    }
+    pub fn truncate(&mut self, n: usize) {
+        while self.len > n {
+            self.pop();
+        }
+    }
+    /// `Vec::remove`: panics if `i >= len` like `Vec`.
+    pub fn remove(&mut self, i: usize) -> T {
+        assert!(i < self.len, "C16 no panic: removal index out of bounds (std check in Vec::remove)");
+        let v = self.items[i].take();
+        let mut k = i;
+        while k + 1 < self.len {
+            self.items[k] = self.items[k + 1].take();
+            k += 1;
+        }
+        self.len -= 1;
+        match v {
+            Some(b) => *b,
+            None => unreachable!(),
+        }
+    }
+    /// `Vec::insert`: panics if `i > len` like `Vec`.
+    pub fn insert(&mut self, i: usize, v: T) {
+        assert!(i <= self.len, "C16 no panic: insertion index out of bounds (std check in Vec::insert)");
+        assert!(self.len < CAP, "stand-in capacity exceeded");
+        let mut k = self.len;
+        while k > i {
+            self.items[k] = self.items[k - 1].take();
+            k -= 1;
+        }
+        self.items[i] = Some(Box::new(v));
+        self.len += 1;
+    }
+    pub fn retain(&mut self, mut f: impl FnMut(&T) -> bool) {
+        let mut i = 0;
+        while i < self.len {
+            let keep = match &self.items[i] {
+                Some(v) => f(v),
+                None => unreachable!(),
+            };
+            if keep {
+                i += 1;
+            } else {
+                self.remove(i);
+            }
+        }
+    }
     /// `[T]::partition_point` (the predicate is true on a prefix).
     pub fn partition_point(&self, mut pred: impl FnMut(&T) -> bool) -> usize {
         let mut i = 0;
